@@ -474,7 +474,20 @@ RULE_ADDENDA_R8 = {
     "C19": ("Tree hazards include links that run through themselves with a remainder; an 'opendir' mode offers directories whose manifest is a fifo, a link to a fifo or to /dev/zero, a directory, a dangling or self-referential link, or unreadable."),
     "C20": ("Reuse also packs two and three trees successfully with one Packer and looks at every Meta again at the end."),
 }
+RULE_ADDENDA_R9 = {
+    "C01": ("The last call of a sequence may name the destination by the same relative text from another working directory."),
+    "C05": ("In a fifth of the cases the directory above the source directory is packed first with the same options."),
+    "C06": ("Sub-path segments include a 2 KiB one; derived addresses include ones that end in a space (read back by the parser of their own kind)."),
+    "C07": ("Violations are also spelled behind an empty sub-path ('//?checksum=...')."),
+    "C09": ("The directory the archive is extracted into held a bundle that knew the same registry packages and was asked about them."),
+    "C12": ("Bundlefaults also makes the n-th fetch or analysis panic (the caller recovers): the builder is spent. Diagnostics also runs with a tracer on the first call only, or on the later calls only."),
+    "C15": ("Concurrentunpack sub-check (a -race binary): 2-5 archives unpacked at the same time through one Packer value, each destination compared with what its archive gives alone."),
+    "C16": ("Spellings include relative ones with '..' from a working directory entered through a symlink with $PWD spelling it that way; history operations include a Pack of the directory above."),
+    "C18": ("Manifests may hold two packages with the same URL text and different source types."),
+}
 for _k, _v in RULE_ADDENDA.items():
+    PROPS[_k]["rule"] += " " + _v
+for _k, _v in RULE_ADDENDA_R9.items():
     PROPS[_k]["rule"] += " " + _v
 for _k, _v in RULE_ADDENDA_R8.items():
     PROPS[_k]["rule"] += " " + _v
